@@ -24,6 +24,7 @@ func main() {
 	prop := flag.String("prop", "", "property id (C01..C20)")
 	tier := flag.String("tier", "", "quick|thorough (default: $VERIF_TIER or quick)")
 	dump := flag.String("dump", "", "debug dumps: census")
+	batch := flag.String("props", "", "comma-separated property ids decided in one process (self-test tools only; prints 'BATCH <id> rc=<n>' per property)")
 	flag.Parse()
 	if *tier == "" {
 		*tier = os.Getenv("VERIF_TIER")
@@ -40,6 +41,39 @@ func main() {
 	if *dump != "" {
 		c := Load(nil, "")
 		doDump(c, *dump)
+		return
+	}
+	if *batch != "" {
+		batchMode = true
+		c := Load(nil, "")
+		buildRenames(c)
+		for _, id := range strings.Split(*batch, ",") {
+			id = strings.TrimSpace(id)
+			fn, ok := props[id]
+			if !ok {
+				fmt.Printf("BATCH %s rc=2\n", id)
+				continue
+			}
+			currentProp = id
+			rc := 0
+			func() {
+				defer func() {
+					if r := recover(); r != nil {
+						if es, isExit := r.(exitSignal); isExit {
+							rc = int(es)
+							return
+						}
+						fmt.Printf("CHECKER-FAULT: internal panic: %v\n%s\n", r, debug.Stack())
+						rc = 2
+					}
+				}()
+				for p := range apathSubst {
+					delete(apathSubst, p)
+				}
+				fn(c, *tier)
+			}()
+			fmt.Printf("BATCH %s rc=%d\n", id, rc)
+		}
 		return
 	}
 	fn, ok := props[*prop]
